@@ -244,6 +244,24 @@ def check_gaussians(ck):
                 ok = out == dl
                 run.check(ok, 'R-EIN', 'SphericalGaussian.log_pdf: scalar scaling', s.loc, st['sub'], f'{st["sub"]!r} changes the axes of the difference',
                           construct=f'R-EIN::{q}::spherical-scaling')
+        # the observation is centred before anything else: every use of `y` in the density is `y - mean`.  The expanded square y^2 p - 2 y p m + p m^2 is the same
+        # polynomial but cancels catastrophically once |mean| >> sigma (the value is then not the log of any density)
+        gq = ck.graph(q)
+        ypar = gq.params.get('y')
+        if ypar is not None:
+            uses = []
+            for r_ in [gq.ret] + [e.term for e in gq.events if e.term is not None]:
+                for t_ in walk_terms(r_, into_mu=False):
+                    for a_ in (t_.args if t_.op != 'call' else list(t_.args[1]) + [v for _, v in t_.args[2]]):
+                        if isinstance(a_, T) and strip_views(a_) is ypar and not (t_.op == 'attr' and t_.args[1] in ('shape', 'ndim', 'dtype')):
+                            uses.append(t_)
+            centred = [u for u in uses if u.op == 'binop' and u.args[0] == 'Sub' and strip_views(u.args[1]) is ypar and any(self_field(x, 'mean') for x in walk_terms(u.args[2], into_mu=False))]
+            other = [u for u in uses if u not in centred and not (u.op == 'call' and is_call_to(u, 'numpy.asarray', 'numpy.array', 'numpy.broadcast_arrays'))]
+            if uses:
+                ck.resolved += 1
+                run.check(bool(centred) and not other, 'R-SAN', f'{cname}.log_pdf: the observation enters only as y - mean', fn.loc(other[0].node if other else None), '',
+                          f'`{norm_stmt(other[0].node)[:80] if other else ""}` uses the uncentred observation: an expanded square cancels catastrophically for means far from the origin',
+                          construct=f'R-SAN::{q}::centred-observation')
         # __post_init__: factor and log-determinant come from the covariance through the scikit-learn helpers with the right type string
         pq = f'{D}gaussian::{cname}.__post_init__'
         pg = ck.graph(pq)
